@@ -494,8 +494,9 @@ class Concatenator(Group):  # pylint: disable=too-many-public-methods
             self.update_array_attribute(entity, entity.name, remove=True)
             # Remove the data from the group
 
-            if entity.property_group is not None:
-                entity.property_group.remove_properties([entity])
+            for property_group in list(parent.property_groups or []):
+                if entity.uid in (property_group.properties or []):
+                    property_group.remove_properties([entity])
 
             # Remove from the concatenated Attributes
             parent_attr = self.get_concatenated_attributes(parent.uid)
